@@ -133,9 +133,9 @@ def extract():
     else:
         raise Inconclusive("encoding not regenerable: unsupported un-signing expression: " + unsign)
 
-    h = extract_fn(src, "hash")
-    if "Md5::new()" not in h or "hex::encode" not in h:
-        raise Inconclusive("encoding not regenerable: hash() is not hex(md5(data))")
+    h = re.sub(r"\s+", " ", re.sub(r"//[^\n]*", "", extract_fn(src, "hash")))
+    if not re.fullmatch(r"fn hash\(data: &str\) -> String \{ let mut md5 = Md5::new\(\); md5\.update\(data\); hex::encode\(md5\.finalize\(\)\) \}", h):
+        raise Inconclusive("encoding not regenerable: hash() is not exactly hex(md5(data)) over the whole text: " + h[:200])
 
     classes, groups = parse_regex_fixed(regex_text)
     return dict(regex_text=regex_text, classes=classes, groups=groups, newtoken=newtoken, signing_token=signing_token,
@@ -406,13 +406,19 @@ def q2_edit_breaks(X, L):
     n = len(X["newtoken"])
     h0 = len(X["tpre"])
     S2 = []
+    # "outside the signature": the signature is the 32-character slice that verification reads, i.e. the
+    # slice of the first regex match of the (unedited) signed file. Other copies of the digest (further
+    # tokens) are fair game for the edit.
+    nm_ = len(cl)
+    hitsS = [match_at(A, S, L, i, cl) for i in range(L - nm_ + 1)] if L >= nm_ else []
+    firstS = first_only(A, hitsS)
+    a0 = X["off_a"]
     for j in range(L):
         S2.append(z3.If(p == j, b, S[j]))
         q.add(z3.Implies(p == j, b != S[j]))
-        # outside the signature: j is not one of the 32 hash characters of a replaced token
-        for i in range(max(0, j - n + 1), min(j, L - n) + 1):
-            if h0 <= j - i < h0 + 32:
-                q.add(z3.Implies(z3.And(p == j, take[i]), z3.BoolVal(False)))
+        for i in range(len(firstS)):
+            if a0 <= j - i < a0 + 32:
+                q.add(z3.Implies(z3.And(p == j, firstS[i]), z3.BoolVal(False)))
     found, actual, U = encode_verify(A, X, S2, L)
     # md5 uninterpreted + injective on the two texts involved
     q.add(z3.Implies(all_eq(A, U, D), all_eq(A, Hu, Hd)))
@@ -470,6 +476,43 @@ def validate_translation(X, binary):
 
 # ---------------------------------------------------------------- classification of counterexamples
 
+GUARD_TEXTS = ["# @generated <<SignedSource::*O*zOeWoEQle#+L!plEphiEmie@IsG>>\nline 1\nline 2\n",
+               " @generated <<SignedSource::*O*zOeWoEQle#+L!plEphiEmie@IsG>> Tail ",
+               "a\r\n@generated <<SignedSource::*O*zOeWoEQle#+L!plEphiEmie@IsG>>\r\nB\t"]
+
+
+def native_edit_guard(binary, violations):
+    lines = [t.encode().hex() for t in GUARD_TEXTS]
+    outs = run_native(binary, lines)
+    edits, meta = [], []
+    for t, o in zip(GUARD_TEXTS, outs):
+        f = o.split()
+        if f[0] == "-" or f[1] != "true":
+            continue        # signing itself is Q1's business
+        signed = bytes.fromhex(f[0])
+        m = re.search(rb"SignedSource<<([a-f0-9]{32})>>", signed)
+        lo, hi = m.start(1), m.end(1)
+        for p in range(len(signed)):
+            if lo <= p < hi:
+                continue
+            for b in (0x20, 0x0a, 0x78, 0x41, 0x09):
+                if signed[p] == b:
+                    continue
+                e = bytearray(signed)
+                e[p] = b
+                edits.append(bytes(e).hex())
+                meta.append((t, p, b))
+    res = run_native(binary, edits)
+    bad = [(m_, r) for m_, r in zip(meta, res) if r.split()[2] == "true"]
+    for (t, p, b), r in bad[:2]:
+        rp = os.path.join(REPLAYS, PROP, "guard_edit_%d" % p)
+        signed = bytes.fromhex(run_native(binary, [t.encode().hex()])[0].split()[0])
+        e = bytearray(signed); e[p] = b
+        write_replay(rp, bytes(e), "edited signed file still verifies (native edit guard)", binary, mode="valid")
+        violations.append(("single-character edit at offset %d (byte 0x%02x) of the signed form of %r is not detected" % (p, b, t), rp))
+    return len(edits)
+
+
 def classify_q1(X, text):
     tok = X["newtoken"].encode()
     n_tok = text.count(tok)
@@ -492,15 +535,20 @@ def main():
     kf = known_findings(PROP)
     known = {k: t for kind, k, t in kf if kind == "known" and k}
     try:
+        binary = build_native("signed_driver")
+        # ---- stage 0 (not solver-decided; a guard that does not depend on the translator): sign a few texts with the real
+        # crate and apply single-character edits at every position outside the signature with a few replacement characters;
+        # every edited file must be rejected. A reproduced acceptance is a violation whatever the source now looks like.
+        n_guard = native_edit_guard(binary, violations)
+        samples.append({"native_edit_guard_edits": n_guard})
         X = extract()
         facts = structural_checks(X)
-        binary = build_native("signed_driver")
         n_valid, vs = validate_translation(X, binary)
         samples.append({"translator_validation_inputs": vs})
         # bounds: one token fits from 59; two tokens need 118. quick: lengths around one token and two tokens.
         n = len(X["signing_token"])
-        lens_q1 = [n, n + 3, 2 * n] if T == "quick" else [n, n + 1, n + 5, n + 12, 2 * n, 2 * n + 1, 2 * n + 6, 3 * n]
-        lens_q2 = [n, n + 2, 2 * n + 1] if T == "quick" else [n, n + 1, n + 4, n + 12, 2 * n, 2 * n + 3, 3 * n]
+        lens_q1 = [n, n + 3, 2 * n] if T == "quick" else [n, n + 1, n + 5, n + 12, 2 * n, 2 * n + 1, 2 * n + 6]
+        lens_q2 = [n, n + 2, 2 * n + 1] if T == "quick" else [n, n + 1, n + 4, n + 12, 2 * n, 2 * n + 3]
         os.makedirs(os.path.join(REPLAYS, PROP), exist_ok=True)
         for L in lens_q1:
             # exclude the listed known classes one by one: first look for a counterexample outside them
